@@ -19,6 +19,7 @@ import (
 	"context"
 	"encoding/binary"
 	"encoding/json"
+	"errors"
 	"fmt"
 	"io"
 	"log/slog"
@@ -94,7 +95,8 @@ func quiesce() {
 type recJ struct {
 	ID    uint64   `json:"id"`
 	Split int      `json:"split"`
-	Keys  []string `json:"keys"` // the key-by result: one keyed event per entry (may be empty)
+	Keys  []string `json:"keys"`            // the key-by result: one keyed event per entry (may be empty)
+	KBErr string   `json:"kberr,omitempty"` // the KeyEventBatch call containing this record fails with: plain (errors.New) | canceled (wraps context.Canceled) | deadline (wraps context.DeadlineExceeded); the runner's own context stays alive
 	Short int      `json:"short,omitempty"` // 1: the record's bytes are empty, 2: a single byte (the id's low byte); else a JSON payload
 }
 type opJ struct {
@@ -120,6 +122,7 @@ type payload struct {
 	Split int      `json:"s"`
 	Keys  []string `json:"k"`
 	Seq   uint64   `json:"q"`
+	KBErr string   `json:"e,omitempty"` // the KeyEventBatch call that contains this record fails: plain | canceled | deadline
 }
 
 // ---------------------------------------------------------------- fakes
@@ -224,6 +227,7 @@ type kbCall struct {
 	idx int
 	rel chan struct{}
 }
+
 // shortTab: records whose bytes are too short to carry a payload (length 0 or 1), by content
 type shortTab struct {
 	mu sync.Mutex
@@ -238,6 +242,7 @@ func (t *shortTab) get(k string) (payload, bool) {
 }
 
 type handler struct {
+	failed    int // KeyEventBatch calls that returned an error
 	short     *shortTab
 	mu        sync.Mutex
 	gate      bool
@@ -266,6 +271,14 @@ func (h *handler) KeyEventBatch(ctx context.Context, events [][]byte) ([][]*hand
 	h.completed = append(h.completed, idx)
 	h.mu.Unlock()
 	out := make([][]*handlerpb.KeyedEvent, len(events))
+	var failWith error
+	defer func() {
+		if failWith != nil {
+			h.mu.Lock()
+			h.failed++
+			h.mu.Unlock()
+		}
+	}()
 	for i, raw := range events {
 		var p payload
 		if len(raw) <= 1 { // a blank or one-byte record is a record like any other: the reader told us what it is
@@ -277,12 +290,23 @@ func (h *handler) KeyEventBatch(ctx context.Context, events [][]byte) ([][]*hand
 		} else if err := json.Unmarshal(raw, &p); err != nil {
 			return nil, err
 		}
+		switch p.KBErr {
+		case "plain":
+			failWith = errors.New("scripted key-by failure")
+		case "canceled":
+			failWith = fmt.Errorf("scripted rpc failure: %w", context.Canceled)
+		case "deadline":
+			failWith = fmt.Errorf("scripted rpc failure: %w", context.DeadlineExceeded)
+		}
 		for j, k := range p.Keys {
 			v := make([]byte, 9)
 			binary.BigEndian.PutUint64(v, p.ID)
 			v[8] = byte(j)
 			out[i] = append(out[i], &handlerpb.KeyedEvent{Key: []byte(k), Value: v, Timestamp: timestamppb.New(time.Unix(int64(1000+p.Seq), 0))})
 		}
+	}
+	if failWith != nil { // this one call fails; the runner itself is not shutting down
+		return nil, failWith
 	}
 	return out, nil
 }
@@ -542,7 +566,7 @@ func (r *reader) ReadEvents() ([][]byte, error) {
 		}
 		r.seen[rec.ID] = true
 		r.seq++
-		pl := payload{ID: rec.ID, Split: rec.Split, Keys: rec.Keys, Seq: r.seq}
+		pl := payload{ID: rec.ID, Split: rec.Split, Keys: rec.Keys, Seq: r.seq, KBErr: rec.KBErr}
 		b, _ := json.Marshal(pl)
 		if rec.Short == 1 || rec.Short == 2 {
 			sb := []byte{}
@@ -605,20 +629,23 @@ func (j fjob) OnSourceRunnerCheckpointComplete(ctx context.Context, req *jobpb.S
 // ---------------------------------------------------------------- one run
 
 type observed struct {
-	Input     []logItem `json:"input"`
-	Batches   [][][]oev `json:"batches"`
-	Overlap   bool      `json:"overlap"`
-	Unread    int       `json:"unread_chunks"`
-	KBOrder   []int     `json:"kb_completion_order"`
-	TimerSets int       `json:"timer_sets"`
-	Late      int       `json:"late_callbacks"`
-	EOI       bool      `json:"end_of_input_reported"`
-	Short     int       `json:"short_records"`
-	Retried   bool      `json:"retryable_read_failure"`
-	Aborted   bool      `json:"terminal_read_failure"`
-	ExtraReads int      `json:"reads_after_end_of_input"`
-	Races     int       `json:"select_races"`
-	TimedOut  bool      `json:"timed_out"`
+	Input      []logItem `json:"input"`
+	Batches    [][][]oev `json:"batches"`
+	Overlap    bool      `json:"overlap"`
+	Unread     int       `json:"unread_chunks"`
+	KBOrder    []int     `json:"kb_completion_order"`
+	TimerSets  int       `json:"timer_sets"`
+	Late       int       `json:"late_callbacks"`
+	EOI        bool      `json:"end_of_input_reported"`
+	Short      int       `json:"short_records"`
+	Retried    bool      `json:"retryable_read_failure"`
+	Aborted    bool      `json:"terminal_read_failure"`
+	KBFailed   int       `json:"keyby_calls_failed"`
+	Failed     bool      `json:"run_failed"` // the runner stopped by itself (an error was surfaced) before the harness tore it down
+	FailedWith string    `json:"run_failed_with,omitempty"`
+	ExtraReads int       `json:"reads_after_end_of_input"`
+	Races      int       `json:"select_races"`
+	TimedOut   bool      `json:"timed_out"`
 }
 
 func runCase(p params, ops []opJ) (*observed, error) {
@@ -664,8 +691,17 @@ func runCase(p params, ops []opJ) (*observed, error) {
 	})
 	rd.sr = sr
 	ctx, cancel := context.WithCancel(context.Background())
-	startDone := make(chan error, 1)
-	go func() { startDone <- sr.Start(ctx) }()
+	var startErr error
+	startDone := make(chan struct{})
+	go func() { startErr = sr.Start(ctx); close(startDone) }()
+	runEnded := func() bool { // Start returns only when the runner stops: before the teardown that means the run FAILED
+		select {
+		case <-startDone:
+			return true
+		default:
+			return false
+		}
+	}
 	if err := sr.HandleDeploy(ctx, &workerpb.DeploySourceRunnerRequest{Operators: nodes, KeyGroupCount: int32(p.KGC), Sources: []*jobconfigpb.Source{{}}}); err != nil {
 		cancel()
 		return nil, err
@@ -790,7 +826,7 @@ func runCase(p params, ops []opJ) (*observed, error) {
 	if retried {
 		// ReadSourceChannel backs off (100 ms * 2^failures, wall clock) before the read after a retryable failure: wait until
 		// the loop has come back for everything the script queued
-		for w := time.Now(); time.Since(w) < 5*time.Second; {
+		for w := time.Now(); time.Since(w) < 5*time.Second && !runEnded(); {
 			rd.mu.Lock()
 			q := rd.queued
 			rd.mu.Unlock()
@@ -804,7 +840,7 @@ func runCase(p params, ops []opJ) (*observed, error) {
 	if p.Timer == "system" {
 		// real timers: wait (bounded) until everything expected has arrived; a correct pipeline always gets there
 		last := delivered()
-		for last < expected && !aborted {
+		for last < expected && !aborted && !runEnded() {
 			if time.Since(t0) > 3*time.Second { // 3 s without a single new event
 				obs.TimedOut = true
 				break
@@ -829,6 +865,12 @@ func runCase(p params, ops []opJ) (*observed, error) {
 	obs.Short = rd.nshort
 	obs.Retried = retried
 	obs.Aborted = aborted
+	h.mu.Lock()
+	obs.KBFailed = h.failed
+	h.mu.Unlock()
+	if obs.Failed = runEnded(); obs.Failed && startErr != nil {
+		obs.FailedWith = startErr.Error()
+	}
 	obs.Unread = rd.queued
 	dup := rd.dup
 	rd.mu.Unlock()
@@ -871,8 +913,10 @@ func runCase(p params, ops []opJ) (*observed, error) {
 
 type eng struct{}
 
-func (eng) Name() string                   { return "runner" }
-func (eng) CoqRequire(mode string) string  { return "From Coq Require Import List NArith Bool.\nImport ListNotations.\nFrom RV Require Import Model.RunnerPipe Corr.Check_runner." }
+func (eng) Name() string { return "runner" }
+func (eng) CoqRequire(mode string) string {
+	return "From Coq Require Import List NArith Bool.\nImport ListNotations.\nFrom RV Require Import Model.RunnerPipe Corr.Check_runner."
+}
 func (eng) CoqCaseType(mode string) string {
 	if mode == "c05" {
 		return "Check_runner.case05"
@@ -889,7 +933,7 @@ func (eng) Rule(mode string) string {
 	if mode == "c05" {
 		return "mode c05 (routing of fan-out records through the real SourceRunner): 2..5 operators, key-group counts 1..64 incl. fewer groups than operators, harness-fired batch time-outs (MaxDelay > 0), 4..12 records each fanning out into 1..4 keyed events with random keys (length 0..12); observable: (key, operator index) of every keyed event an operator's HandleEventBatch received. Non-trivial: a record with several keys and at least two operators reached."
 	}
-	return "one real SourceRunner per case: 1..4 operators, key-group counts from the operator count to 64, MaxSize 0..6, time-outs none / one harness timer per batcher (expiry and - possibly late - delivery of the callback scripted, Stop cancels what has not expired) / real (20us..2ms), 3..40 records over 1..3 splits with 0..3 keyed events each from a small key alphabet (one record in six is a zero-length or one-byte record, keyed like any other), reads that fail (retryable, then read again; terminal), barriers and watermark ticks at generated positions, in 2 of 5 cases a bounded source (the last read returns ErrEndOfInput, plain or wrapped with %w, with or without records; a reader asked again afterwards would hand out all its records once more), gated KeyEventBatch completions released oldest/newest first, gated operators. Non-trivial: at least two operators, at least 4 keyed events, and a key that occurs in two records of one split."
+	return "one real SourceRunner per case: 1..4 operators, key-group counts from the operator count to 64, MaxSize 0..6, time-outs none / one harness timer per batcher (expiry and - possibly late - delivery of the callback scripted, Stop cancels what has not expired) / real (20us..2ms), 3..40 records over 1..3 splits with 0..3 keyed events each from a small key alphabet (one record in six is a zero-length or one-byte record, keyed like any other), reads that fail (retryable, then read again; terminal), in 1 of 20 cases one KeyEventBatch call that fails (plain error / wrapping context.Canceled / context.DeadlineExceeded) while the runner's context is alive, barriers and watermark ticks at generated positions, in 2 of 5 cases a bounded source (the last read returns ErrEndOfInput, plain or wrapped with %w, with or without records; a reader asked again afterwards would hand out all its records once more), gated KeyEventBatch completions released oldest/newest first, gated operators. Non-trivial: at least two operators, at least 4 keyed events, and a key that occurs in two records of one split."
 }
 
 func coqMarker(k string, id uint64) string {
@@ -988,8 +1032,8 @@ func (eng) Execute(mode string, c *hx.Case) (*hx.Result, error) {
 		wmT = append(wmT, hx.CoqList(wv, "N"))
 	}
 	delayB := p.Timer == "fake" || p.Timer == "system"
-	term := fmt.Sprintf("RC %d %d %d %s %s %s %s %s %s", p.NOps, p.KGC, p.MaxSize, hx.CoqBool(delayB),
-		hx.CoqList(items, "ritem"), hx.CoqList(opsT, "list (list ev)"), hx.CoqList(wmT, "list N"), hx.CoqBool(obs.Aborted), hx.CoqBool(obs.Overlap || obs.TimedOut))
+	term := fmt.Sprintf("RC %d %d %d %s %s %s %s %s %s %s", p.NOps, p.KGC, p.MaxSize, hx.CoqBool(delayB),
+		hx.CoqList(items, "ritem"), hx.CoqList(opsT, "list (list ev)"), hx.CoqList(wmT, "list N"), hx.CoqBool(obs.Aborted), hx.CoqBool(obs.Failed), hx.CoqBool(obs.Overlap || obs.TimedOut))
 	if mode == "c05" {
 		// routing only: every delivered keyed event as (key, operator it arrived at)
 		var kos []string
@@ -1012,7 +1056,7 @@ func (eng) Execute(mode string, c *hx.Case) (*hx.Result, error) {
 		}
 		t5 := fmt.Sprintf("RK %d %d %d %s", p.NOps, p.KGC, nke, hx.CoqList(kos, "list N * N"))
 		return &hx.Result{Term: t5, Nontrivial: len(opsHit) >= 2 && fan,
-			Tags: []string{fmt.Sprintf("nops:%d", p.NOps), fmt.Sprintf("operators_hit:%d", len(opsHit)), fmt.Sprintf("kgc<nops:%v", p.KGC < p.NOps), fmt.Sprintf("fanout:%v", fan)},
+			Tags:     []string{fmt.Sprintf("nops:%d", p.NOps), fmt.Sprintf("operators_hit:%d", len(opsHit)), fmt.Sprintf("kgc<nops:%v", p.KGC < p.NOps), fmt.Sprintf("fanout:%v", fan)},
 			Observed: map[string]any{"delivered": len(kos), "produced": nke, "batches": obs.Batches}}, nil
 	}
 	ooo := false
@@ -1040,6 +1084,9 @@ func (eng) Execute(mode string, c *hx.Case) (*hx.Result, error) {
 	add(obs.Short > 0, "zero_or_one_byte_record")
 	add(obs.Retried, "retryable_read_failure")
 	add(obs.Aborted, "terminal_read_failure")
+	add(obs.KBFailed > 0, "keyby_call_failed")
+	add(obs.Failed, "run_failed(error surfaced)")
+	add(obs.KBFailed > 0 && !obs.Failed, "keyby_call_failed_but_run_continued")
 	add(obs.ExtraReads > 0, "read_after_end_of_input")
 	add(p.KBGate, "kbgate")
 	add(p.OpGate, "opgate")
@@ -1257,6 +1304,25 @@ func genCase(r *hx.Rand, big bool) *hx.Case {
 		}
 	} else if x == 2 {
 		ops = append(ops, hx.Op(opJ{Op: "readerr", Err: "terminal"}), hx.Op(opJ{Op: "fire"}))
+	}
+	// one key-by call fails (the runner itself is not shutting down): plain error, or one wrapping context.Canceled /
+	// context.DeadlineExceeded as an RPC layer reports a call it gave up on
+	if r.Chance(1, 20) {
+		var reads []int
+		for i, raw := range ops {
+			var o opJ
+			json.Unmarshal(raw, &o)
+			if o.Op == "read" && len(o.Recs) > 0 {
+				reads = append(reads, i)
+			}
+		}
+		if len(reads) > 0 {
+			at := reads[r.Intn(len(reads))]
+			var o opJ
+			json.Unmarshal(ops[at], &o)
+			o.Recs[r.Intn(len(o.Recs))].KBErr = hx.Pick(r, []string{"plain", "canceled", "canceled", "deadline"})
+			ops[at] = hx.Op(o)
+		}
 	}
 	// a bounded source: the last read reports the end of input, either together with its records or in a read of its own
 	if r.Chance(2, 5) {
